@@ -16,6 +16,16 @@ PROPS = {
     "C09": {"streams": [S("table", 2000, 8000)], "projection": "full"},
     "C15": {"streams": [S("strtab", 2000, 20000), S("utf8", 500, 5000)], "projection": "full"},
     "C10": {"streams": [S("ident", 800, 4000)], "projection": "full"},
+    "C01": {
+        "streams": [S("int", 1500, 10000), S("parse", 1500, 8000), S("table", 800, 4000), S("strtab", 800, 6000),
+                    S("ident", 400, 2000), S("notes", 300, 3000), S("sysv", 120, 1000), S("gnu", 120, 1000),
+                    S("symver", 80, 600), S("file", 120, 1200), S("sweep", 1, 3), S("bigfile", 1, 1)],
+        "projection": "panic",
+        "rule": "the case sets of every other property (valid ELF of both classes/orders, structured corruptions of every header and "
+                "table field incl. 0, 1, 2^31, 2^32-1, 2^63, 2^64-1, truncations, random bytes) x all public calls x indices/offsets up to "
+                "usize::MAX, alignments and counts up to u64::MAX; harness built with overflow-checks and debug-assertions; each case "
+                "under catch_unwind; non-trivial = reply is not a bare early error",
+    },
 }
 
 COMMON_NOTE = ("Trusted: Lean 4.33 kernel; axioms propext/Classical.choice/Quot.sound only (audited per theorem on every run); "
@@ -70,6 +80,19 @@ LEVEL_TEXT["C02"] = {
             "for every value. The translator and interpreter are validated against the compiled parsers on ABI-encoded field values.",
     "note": COMMON_NOTE + " Reference layouts in Ref/AbiLayouts.lean are transcribed by hand from the gABI/GNU documents.",
     "technique": "Lean 4 proof over translator-generated parse programs (kernel decide vs ABI reference) + ABI-encoder round-trip oracle",
+}
+
+LEVEL_TEXT["C01"] = {
+    "text": "The model writes every Rust operation that can panic (indexing, split_at, unchecked + - % and -=) as an operation returning "
+            "Out.panic exactly when Rust with overflow/debug assertions would. ~95 theorems `f args != panic` for all bytes and arguments: "
+            "the six integer reads, all 19 generated struct programs (one generic theorem over the interpreter), validate_entsize, "
+            "ParsingTable::get, ParsingIterator::next, StringTable get/get_raw, parse_ident (incl. short buffers, after the fix: commit), "
+            "note padding/parse/iteration for every alignment, the four version-record iterators in *every* state (offset+aux and count-=1 "
+            "shown overflow-free because the preceding parse succeeded), SysV/GNU hash new+find (% by bucket count/bloom size, "
+            "chain_start-table_start guarded), minimal_parse and every ElfBytes accessor, get_requirement/get_definition. "
+            "Tied to the code by differential runs of all streams under catch_unwind.",
+    "note": COMMON_NOTE + " Not modelled: stack exhaustion and allocation-failure aborts (the slice parser has no recursion and no allocation), 32-bit usize.",
+    "technique": "Lean 4 proof of totality over a panic-tracking executable model + differential correspondence under catch_unwind",
 }
 
 # every property not yet claimed is listed here with the reason; entries disappear as checks land
